@@ -3,11 +3,52 @@ SPEC = {
     'harness': 'hC18',
     'coq_dir': 'C18',
     'claimed': False,
-    'theorems': [],
+    'theorems': [
+        'C18_parallel_eq_sequential',
+        'C18_root_is_tree_root',
+        'C18_computation_root',
+        'C18_branch_is_tree_branch',
+        'C18_branch_verifies',
+        'C18_dup_tail_same_root',
+        'C18_binding',
+        'C18_child_roots_verify',
+        'C18_example_duptail',
+        'C18_example_parallel_and_branch',
+    ],
     'allowed_axioms': [],
     'shard': 230,
-    'rule': 'TODO',
-    'trusted_base': [],
-    'assumptions': [],
-    'harness_timeout': {'quick': 300, 'thorough': 3000},
+    'rule': 'jobs are a deterministic function of (seed, tier): every leaf count 0..400 (thorough 0..3000) with distinct leaves, '
+            'sampled counts up to 3000 (thorough 20000) around the step/cap boundaries (c*2^k +-1, multiples of 256 +-1) and random ones; '
+            'each count is evaluated by GetMerkleRoot in child processes pinned with taskset to 1,2,3,4,8,16 CPUs (thorough 1..16) so that '
+            'runtime.NumCPU() and hence the chunking varies; repeated-leaf lists over alphabets of 1..3 values; pairs of lists '
+            '(aligned duplicated tail once/twice, unaligned duplicate, replaced/swapped/dropped leaf, identical); every branch position '
+            'for counts <= 64 (thorough 300) plus out-of-range positions, sampled positions for larger counts; mixed main/para-chain '
+            'transaction lists (0..5 segments, 4 titles, some segments above the 80-leaf threshold) through CalcMultiLayerMerkleInfo/'
+            'CalcMerkleRoot with the two GetMerkleBranch calls of getMultiLayerProofs. '
+            'non-trivial = at least two leaves/transactions (and an in-range position for branch cases); distinct = distinct Gallina case terms',
+    'trusted_base': [
+        'crypto/sha256 and the harness\'s own 5-line double hash + level-by-level reference tree (independent of merkle.go) produce the '
+        'hash table (left id, right id, digest id) the Coq model looks hashes up in; the harness interns 32-byte values as ids per case '
+        '(TCanon shorthand is only used after the harness checked that its interned table equals the canonical numbering)',
+        'taskset(1) and runtime.NumCPU() following the affinity mask (the harness aborts if a child sees a different CPU count)',
+        'C18_binding is stated in the free term algebra h (leaves are atoms, H2 injective): stands for collision freedom of double SHA-256; '
+        'all other theorems hold for an arbitrary hash function',
+    ],
+    'assumptions': [
+        'leaves are 32-byte values (GetHashFromTwoHash copies into a 64-byte buffer), fewer than 2^32 leaves (inner[32], uint32 position), '
+        'Go int arithmetic does not overflow; matchlevel sentinel 0xff modelled as None',
+        'goroutine scheduling in GetMerkleRoot/calcMultiLayerMerkleInfo is modelled as a map over chunks (results are placed by index, no shared writes)',
+        'a transaction is abstracted to (para title or main, full hash); types.GetParaExecTitleName is taken as given',
+        'blockchain/query_tx.go getMultiLayerProofs needs a chain database; its two GetMerkleBranch calls are replayed by the harness on the '
+        'CalcMultiLayerMerkleInfo output instead of going through the database',
+    ],
+    'manifest': {
+        'level_text': 'full for consistency (parallel = sequential = constant-space = recursive tree root, every worker count and leaf count) and '
+                      'provability (every branch verifies, also through child chains) for an arbitrary hash function; binding in the symbolic '
+                      'hash algebra: equal roots imply equal lists or lists related by the duplicated-tail pattern (and that pattern preserves the root); '
+                      'the clause "the pattern is flagged as mutated" is checked on every generated pair by the spec oracle, not proved',
+        'level_note': 'Trusted: Coq kernel; crypto/sha256 and the harness reference used to tabulate hashes; taskset/NumCPU; symbolic hash for binding.',
+        'technique': 'Coq proof (binary-counter invariant over the leaf list, level-wise reduction lemma for the chunked root) + in-kernel correspondence check with a table-backed hash',
+    },
+    'harness_timeout': {'quick': 400, 'thorough': 3000},
 }
